@@ -64,3 +64,19 @@ claim("C18", "other",
       "dominance of ambient-state writers (R-AMBIENT), save-site role/identity/ordering rules (R-SAVE); synthetic canaries "
       "in the thorough tier",
       "DESIGN.md section 4, C18")
+
+claim("C16", "other",
+      "Decides the structural clauses for all grid extents and window lengths: the flat grid index of gaussian_blurring equals "
+      "the row-major bijection with x slowest as a polynomial identity in loop variables and extents (2D and 3D; a collision / "
+      "overflow / order witness is produced when it fails); each grid axis uses its own bounds and count; the Gaussian weight "
+      "equals exp(-d^2/2s^2)/sqrt(2 pi s^2); the cutoff selection is applied to weights and property of the same frame; sums "
+      "run over particles with the rank-wise broadcast; distances are minimum-imaged with the frame's cell; spatial_average "
+      "is (x_i + sum over listed neighbours of the *input*)/(1+cn_i) per frame with one open handle; time_average uses the "
+      "slice [n:n+w], mean over axis 0, and a middle index that is the central frame for every w=1..8, n=0..6; the "
+      "window-length truncation rule reports int(float quotient) (known finding G16). Not decided: minimum-image distances on "
+      "data, numpy broadcasting semantics.",
+      "Trusted: numpy linspace/mean/sum semantics; idiom tables in pmsa/checks/c16.py (forms outside them give ANALYSIS-ERROR). "
+      "The R-TRUNC finding is listed in known_findings.json and printed as KNOWN-FINDING.",
+      "polynomial identity on the extracted index expression with finite witness search (R-LINEAR), value-graph formula and "
+      "slice-alignment rules (R-ALG, R-ALIGN, R-PBC), file-handle typestate (R-HANDLE), truncation idiom rule (R-TRUNC)",
+      "DESIGN.md section 4, C16")
